@@ -171,6 +171,9 @@ class StateUpdater:
             read_state_awaitable=read_state_mutex,
             tracker_options=tracker_options,
         )
+        if (replaced := self._workers.get(id(remote_value))) is not None:
+            # registered again - don't leave the previous tracker running unreachable
+            replaced.stop()
         self._workers[id(remote_value)] = tracker
 
         logger.debug(
